@@ -105,11 +105,11 @@ class Explorer:
                 obj, obs = self.build(nh)
                 self.transitions += 1
                 self.max_depth = max(self.max_depth, len(nh))
+                k = self.canon(obj, nh)  # before the invariant: invariants may read (and so cache) attributes
                 for key, msg in self.invariant(hist, op, obj, obs[-1], obs):
                     if key not in fail_keys:
                         fail_keys.add(key)
                         self.failures.append((key, msg, list(nh)))
-                k = self.canon(obj, nh)
                 if k not in seen:
                     if len(seen) >= self.max_states:
                         self.capped = True
